@@ -391,7 +391,19 @@ func c09TopUpAs(c *core.Ctx, R string) {
 			}
 			var held types.Object
 			if b, ok := cnt.(*ast.BinaryExpr); ok && b.Op == token.SUB {
-				if lc, ok := an.Unparen(b.Y).(*ast.CallExpr); ok && an.ObjIs(an.Callee(fn.Info(), lc), "", "len") && len(lc.Args) == 1 {
+				y := an.Unparen(b.Y)
+				for depth := 0; depth < 3; depth++ { // `existing := len(held)` through single-definition locals
+					id, isID := y.(*ast.Ident)
+					if !isID {
+						break
+					}
+					e, ok := fn.SingleDefExpr(fn.ObjOf(id))
+					if !ok {
+						break
+					}
+					y = an.Unparen(e)
+				}
+				if lc, ok := y.(*ast.CallExpr); ok && an.ObjIs(an.Callee(fn.Info(), lc), "", "len") && len(lc.Args) == 1 {
 					held = fn.ObjOf(lc.Args[0])
 				}
 			}
